@@ -158,7 +158,7 @@ func runChild(binary, sub string, params interface{}, result, tmp string, deadli
 	return res, nil
 }
 
-var raceFrame = regexp.MustCompile(`(?m)^\s+(github\.com/itchio/wharf/[^\s(]+)\(`)
+var raceFrame = regexp.MustCompile(`(?m)^\s+(github\.com/itchio/wharf/\S+?)\(\)\s*$`)
 
 // raceReports projects the race detector's output to one line per report: the functions of
 // itchio/wharf on the stacks of the two conflicting accesses (no addresses, no line numbers,
